@@ -659,6 +659,32 @@ func (vc *VC) compileCall(env *Env, n *SNode) *Val {
 	case "Z":
 		need(1)
 		return &Val{K: KInt, C: []string{vc.toInt(vc.compile(env, args[0]))}}
+	case "istype", "astype":
+		// istype(x, T) / astype(x, T): dynamic type test / payload of interface value x; T is a type name of
+		// the contract's package (optionally *T or pkg.T)
+		need(2)
+		x := vc.compile(env, args[0])
+		if x.K != KIface {
+			sfail("%s: first argument must be an interface value", name)
+		}
+		T := vc.specType(env, args[1])
+		tag := fmt.Sprint(vc.e.typeTag(T))
+		if name == "istype" {
+			return vc.boolVal(sEq(x.C[0], tag))
+		}
+		k, w, sg := scalarKind(T)
+		switch k {
+		case KPtr:
+			return &Val{K: KPtr, T: T, C: []string{x.C[1], x.C[2]}}
+		case KBV:
+			if vc.intMode {
+				sfail("astype of integer payload not supported in int mode")
+			}
+			return vc.bv(bvConv(x.C[2], 64, false, w), w, sg, T)
+		case KBool:
+			return vc.boolVal(sEq(x.C[2], off64(1)))
+		}
+		return vc.load(env.heap, layoutOf(T), T, x.C[1], x.C[2])
 	case "isnil":
 		need(1)
 		return vc.boolVal(vc.isNil(vc.compile(env, args[0])))
@@ -743,6 +769,34 @@ func (vc *VC) specConv(x *Val, w int, signed bool) *Val {
 		return vc.bv(app(fmt.Sprintf("(_ int2bv %d)", w), x.C[0]), w, signed, nil)
 	}
 	sfail("cannot convert %s to integer", x.K)
+	return nil
+}
+
+// specType resolves a type expression in a spec: T, *T, pkg.T, *pkg.T.
+func (vc *VC) specType(env *Env, n *SNode) types.Type {
+	if n.Op == "un" && n.Tok == "*" {
+		return types.NewPointer(vc.specType(env, n.Args[0]))
+	}
+	var obj types.Object
+	switch n.Op {
+	case "id":
+		if env.pkg != nil {
+			obj = env.pkg.Pkg.Scope().Lookup(n.Tok)
+		}
+		if obj == nil {
+			obj = types.Universe.Lookup(n.Tok)
+		}
+	case "sel":
+		if id := n.Args[0]; id.Op == "id" {
+			if p := vc.e.pkgByName(env.pkg, id.Tok); p != nil {
+				obj = p.Pkg.Scope().Lookup(n.Tok)
+			}
+		}
+	}
+	if tn, ok := obj.(*types.TypeName); ok {
+		return tn.Type()
+	}
+	sfail("cannot resolve type %s", n)
 	return nil
 }
 
